@@ -4,6 +4,6 @@ func init() {
 	plans["C16"] = Plan{Pkg: pkg("C16"), Steps: []Step{
 		{Run: "TestRenewalSchedule", Quick: 16, Thorough: 160, QShards: 8, TShards: 16},
 		{Run: "TestRenewalWindows", Quick: 160, Thorough: 4000, QShards: 16, TShards: 16},
-		{Run: "TestRequestsAcrossAutomaticRenewals", Quick: 32, Thorough: 480, QShards: 16, TShards: 16},
+		{Run: "TestRequestsAcrossAutomaticRenewals", Quick: 16, Thorough: 480, QShards: 16, TShards: 16},
 	}}
 }
